@@ -28,7 +28,7 @@ mkdir -p $OUT; cp $SD/patch.diff $OUT/patch.diff; cp $SD/demo_test.go $OUT/demo_
 # run our check against the patched /repo
 if [ -n "$(git -C /repo status --porcelain)" ]; then echo "/repo has uncommitted changes: commit them first"; exit 2; fi
 git -C /repo apply $SD/patch.diff || { echo "patch does not apply to /repo"; exit 2; }
-res=$(cd /verif && timeout 1500 ./check $ID quick 2>&1); check_rc=$?
+res=$(cd /verif && VERIF_EVIDENCE_DIR=/tmp/seed_ev timeout 1500 ./check $ID quick 2>&1); check_rc=$?
 git -C /repo checkout -q -- .
 nviol=$(echo "$res" | grep -c '^VIOLATION')
 first=$(echo "$res" | grep -m3 '^VIOLATION' | sed 's/replay=[^ ]* //')
